@@ -157,8 +157,17 @@ class Ctx:
                           os.path.join(GEN_DIR, 'Registry.lean')])
         return rc == 0, out
 
+    def translate_diag(self):
+        os.makedirs(GEN_DIR, exist_ok=True)
+        with Lock('gen'):
+            rc, out = sh([sys.executable, os.path.join(VERIF, 'translators', 'diag.py'),
+                          os.path.join(REPO, 'src', 'runtime', 'logging.h'), os.path.join(GEN_DIR, 'Diag.lean')])
+        return rc == 0, out
+
     def translate_all(self):
-        return self.translate_registry()
+        ok, out = self.translate_registry()
+        ok2, out2 = self.translate_diag()
+        return ok and ok2, out + out2
 
     # ---- Lean ---------------------------------------------------------------------------------
     def lean_build(self, targets):
